@@ -48,3 +48,15 @@ ASSUMPTIONS = {
           "a clean batch is sampling evidence, not proof"],
     "C01": ["cron semantics at DST folds and of L/W/# are cronexpr's and excluded from generation"],
 }
+
+FULL_RULE = ("one evaluation = one simulated run of a seeded plan against the complete execution controller manager (cron, job-queue, job, "
+             "job-config controllers, active job store) plus real admission webhooks, with simulated API server, informers, workqueues, "
+             "kubelet, GC and user: JobConfigs/Jobs/pod scripts/user operations/fault windows/pinned faults/crashes/cache lags are drawn "
+             "from the seed, the interleaving from the choice stream; after the main phase all faults stop and the system is drained to a "
+             "fixpoint where the liveness clauses are asserted. A run is non-trivial if the property's monitor judged at least one "
+             "non-vacuous instance (see nonTrivialFull in preset_full.go); distinct = distinct hashes of the full scheduler decision sequence.")
+
+for _p, _q, _t in [("C02", 400, 60000), ("C05", 400, 60000), ("C06", 400, 60000), ("C07", 400, 60000), ("C08", 400, 60000),
+                   ("C09", 400, 60000), ("C10", 400, 60000), ("C11", 400, 60000), ("C12", 400, 60000), ("C13", 400, 60000),
+                   ("C15", 400, 60000)]:
+    CAMPAIGNS[_p] = {"variants": [V("full", _q, 90, _t, 1800)], "rule": FULL_RULE, "expect_probes": [], "shrink_s": {"quick": 60, "thorough": 300}}
